@@ -149,8 +149,20 @@ static size_t hc_unhex(const char* h, unsigned char* out, size_t cap) {
 /* ------------------------------------------------------------------ exceptions */
 
 static const char* hc_exc = "";
+static char hc_msg[160] = "";          /* text of the last exception (diagnostics only, never judged) */
+static const char* exc_name(var e);
+static const char* hc_caught(var e) {
+  hc_msg[0] = 0;
+  var m = new_raw(String, $S(""));
+  show_to(current(Exception), m, 0);
+  const char* t = strstr(c_str(m), " - ");            /* <'Exception' At 0x.. Type - message> */
+  strncpy(hc_msg, t ? t + 3 : c_str(m), sizeof hc_msg - 1); hc_msg[sizeof hc_msg - 1] = 0;
+  del_raw(m);
+  for (char* p = hc_msg; *p; p++) if ((unsigned char)*p < 0x20 || (unsigned char)*p >= 0x7f || *p == '"' || *p == '\\') *p = '.';
+  return exc_name(e);
+}
 /* run a statement; hc_exc = "" or the name of the exception type that came out */
-#define HC_TRY(stmt) do { hc_exc = ""; try { stmt; } catch (hc_e_) { hc_exc = exc_name(hc_e_); } } while (0)
+#define HC_TRY(stmt) do { hc_exc = ""; hc_msg[0] = 0; try { stmt; } catch (hc_e_) { hc_exc = hc_caught(hc_e_); } } while (0)
 
 static const char* exc_name(var e) {
   if (e == NULL) return "NULL";
@@ -250,6 +262,14 @@ var Probe = Cello(Probe,
   Instance(C_Int, Probe_C_Int),
   Instance(Show, Probe_Show, NULL));
 
+/* after an execution has been closed (its end event reported what was left): forget leftovers and
+   ledger errors so that one defect is blamed on one execution only */
+static void led_abandon(void) {
+  led_init();
+  for (int64_t s = 1; s < led_next; s++) if (led_state[s] == 1) { led_state[s] = 3; led_live--; }
+  led_errors = 0; led_errmsg[0] = 0;
+}
+
 /* sorted list of live serials into the current event */
 static void ev_ledger(void) {
   led_init();
@@ -262,7 +282,7 @@ static void ev_ledger(void) {
 
 /* ------------------------------------------------------------------ value table */
 
-enum { VT_INT = 1, VT_STR = 2, VT_FLT = 3, VT_PROBE = 4 };
+enum { VT_INT = 1, VT_STR = 2, VT_FLT = 3, VT_PROBE = 4, VT_BOX = 5 };   /* VT_BOX: a Box owning a managed Probe */
 struct Val { int kind; int64_t i; double f; char* s; size_t sl; };
 #define HC_MAXV 4096
 static struct Val vt_k[HC_MAXV], vt_v[HC_MAXV];   /* two universes: keys/elements and values */
@@ -270,15 +290,15 @@ static int vt_nk = 0, vt_nv = 0;
 
 static int vt_kind_of(const char* s) {
   if (!strcmp(s, "Int")) return VT_INT; if (!strcmp(s, "String")) return VT_STR;
-  if (!strcmp(s, "Float")) return VT_FLT; if (!strcmp(s, "Probe")) return VT_PROBE; return 0;
+  if (!strcmp(s, "Float")) return VT_FLT; if (!strcmp(s, "Probe")) return VT_PROBE; if (!strcmp(s, "Box")) return VT_BOX; return 0;
 }
-static var vt_type(int kind) { return kind == VT_INT ? Int : kind == VT_STR ? String : kind == VT_FLT ? Float : Probe; }
+static var vt_type(int kind) { return kind == VT_INT ? Int : kind == VT_STR ? String : kind == VT_FLT ? Float : kind == VT_BOX ? Box : Probe; }
 
 /* parse "<tok> <spec>" : Int/Probe decimal, String hex, Float hex of the IEEE bits */
 static void vt_define(struct Val* tab, int* n, int kind, int tok, const char* spec) {
   if (tok <= 0 || tok >= HC_MAXV) { fprintf(stderr, "bad token %d\n", tok); exit(9); }
   struct Val* v = &tab[tok]; v->kind = kind;
-  if (kind == VT_INT || kind == VT_PROBE) v->i = strtoll(spec, NULL, 10);
+  if (kind == VT_INT || kind == VT_PROBE || kind == VT_BOX) v->i = strtoll(spec, NULL, 10);
   else if (kind == VT_FLT) { uint64_t b = strtoull(spec, NULL, 16); memcpy(&v->f, &b, 8); }
   else { size_t cap = strlen(spec) / 2 + 2; v->s = malloc(cap); v->sl = hc_unhex(spec, (unsigned char*)v->s, cap - 1); v->s[v->sl] = 0; }
   if (tok > *n) *n = tok;
@@ -292,6 +312,7 @@ static var vt_make(struct Val* tab, int tok) {
     case VT_FLT: return new_raw(Float, $F(v->f));
     case VT_STR: return new_raw(String, $S(v->s));
     case VT_PROBE: return new_raw(Probe, $I(v->i));
+    case VT_BOX: return new(Probe, $I(v->i));      /* managed: a Box deletes its pointee with del() */
   }
   return NULL;
 }
@@ -308,6 +329,8 @@ static int vt_token(struct Val* tab, int n, var o) {
     else if (v->kind == VT_FLT && t == Float) { if (memcmp(&((struct Float*)o)->val, &v->f, 8) == 0) return k; }
     else if (v->kind == VT_STR && t == String) { char* s = ((struct String*)o)->val; if (s && strlen(s) == v->sl && memcmp(s, v->s, v->sl) == 0) return k; }
     else if (v->kind == VT_PROBE && t == Probe) { if (((struct Probe*)o)->val == v->i) return k; }
+    else if (v->kind == VT_BOX && t == Box) { struct Probe* pp = ((struct Box*)o)->val; if (pp && pp->val == v->i) return k; }
+    else if (v->kind == VT_BOX && t == Probe) { if (((struct Probe*)o)->val == v->i) return k; }
   }
   return 0;
 }
